@@ -61,3 +61,18 @@ Theorem C04_full_declarative_mixed_waiting : forall d s p acc egr,
   opt_domain d s p acc egr -> pos_hops_b d = true -> q_fwd p = false -> C04_decl d s p acc egr.
 Proof. exact C04_decl_strong. Qed.
 Print Assumptions C04_full_declarative_mixed_waiting.
+
+(* the whole reverse scan (entry slot of the hour index + every step) as the source writes it now *)
+Theorem C04_reverse_scan_is_code : forall d p k, rev_scan_code d p k = rev_scan d p k false.
+Proof. exact rev_scan_tie. Qed.
+Print Assumptions C04_reverse_scan_is_code.
+
+(* the arrival-order comparator (with its reversed trip/sequence tie-break) as the source writes it now *)
+Theorem C04_reverse_sort_is_code : forall a b, cmp_args G.gen_rev_lt a b = rev_lt a b.
+Proof. exact rev_lt_tie. Qed.
+Print Assumptions C04_reverse_sort_is_code.
+
+From TrV Require Import Proofs.FullStatements.
+Theorem C04_full : C04_full_statement.
+Proof. exact C04_original. Qed.
+Print Assumptions C04_full.
